@@ -92,10 +92,37 @@ def _estimate_tree_depth(expr: Expression, max_depth: int = 500) -> int:
     return max_found
 
 
-def _compute_degree_iterative(expr: Expression) -> Optional[int]:
-    """Compute degree iteratively using explicit stack.
+def _vector_elements_degree(vector: object) -> Optional[int]:
+    """Largest polynomial degree among the elements of a vector operand.
 
-    Handles deep expression trees that would cause RecursionError.
+    VectorVariable elements have degree 1; the elements of a VectorExpression
+    are classified individually (None if any of them is non-polynomial).
+    """
+    if hasattr(vector, "_variables"):
+        return 1
+    if hasattr(vector, "_expressions"):
+        max_deg = 0
+        for sub_expr in vector._expressions:  # type: ignore[attr-defined]
+            d = compute_degree(sub_expr)
+            if d is None:
+                return None
+            max_deg = max(max_deg, d)
+        return max_deg
+    return None
+
+
+def _vector_power_degree(power: float) -> Optional[int]:
+    """Degree of x ** power for a vector of variables (None unless power is a
+    non-negative integer)."""
+    if not float(power).is_integer() or power < 0:
+        return None
+    return int(power)
+
+
+def _vector_node_degree(expr: Expression) -> tuple[bool, Optional[int]]:
+    """Degree of the vector / matrix reduction nodes.
+
+    Returns (handled, degree); handled is False for other node kinds.
     """
     from optyx.core.matrices import QuadraticForm
     from optyx.core.vectors import (
@@ -108,6 +135,30 @@ def _compute_degree_iterative(expr: Expression) -> Optional[int]:
         ElementwiseUnary,
     )
 
+    if isinstance(expr, (LinearCombination, VectorSum)):
+        return True, _vector_elements_degree(expr.vector)
+    if isinstance(expr, DotProduct):
+        left_deg = _vector_elements_degree(expr.left)
+        right_deg = _vector_elements_degree(expr.right)
+        if left_deg is None or right_deg is None:
+            return True, None
+        return True, left_deg + right_deg
+    if isinstance(expr, QuadraticForm):
+        vec_deg = _vector_elements_degree(expr.vector)
+        return True, None if vec_deg is None else 2 * vec_deg
+    if isinstance(expr, (VectorPowerSum, ElementwisePower)):
+        return True, _vector_power_degree(expr.power)
+    if isinstance(expr, (VectorUnarySum, ElementwiseUnary)):
+        # sum(sin(x)), exp(x) etc. are non-polynomial
+        return True, None
+    return False, None
+
+
+def _compute_degree_iterative(expr: Expression) -> Optional[int]:
+    """Compute degree iteratively using explicit stack.
+
+    Handles deep expression trees that would cause RecursionError.
+    """
     # Stack: (expression, phase, left_result, right_result)
     # phase 0: first visit, phase 1: left done, phase 2: both done
     stack: list[tuple[Expression, int, Optional[int], Optional[int]]] = [
@@ -126,34 +177,10 @@ def _compute_degree_iterative(expr: Expression) -> Optional[int]:
             result_stack.append(1)
             continue
 
-        # Vector expressions - these have known degrees
-        if isinstance(node, LinearCombination):
-            result_stack.append(1)
-            continue
-        if isinstance(node, VectorSum):
-            result_stack.append(1)
-            continue
-        if isinstance(node, DotProduct):
-            result_stack.append(2)
-            continue
-        if isinstance(node, QuadraticForm):
-            result_stack.append(2)
-            continue
-        if isinstance(node, VectorPowerSum):
-            # sum(x ** k) has degree k
-            result_stack.append(int(node.power))
-            continue
-        if isinstance(node, VectorUnarySum):
-            # sum(sin(x)), sum(exp(x)) etc. are non-polynomial
-            result_stack.append(None)
-            continue
-        if isinstance(node, ElementwisePower):
-            # x ** k has degree k
-            result_stack.append(int(node.power))
-            continue
-        if isinstance(node, ElementwiseUnary):
-            # sin(x), exp(x) etc. are non-polynomial
-            result_stack.append(None)
+        # Vector / matrix reduction nodes - classified from their operands
+        handled, node_deg = _vector_node_degree(node)
+        if handled:
+            result_stack.append(node_deg)
             continue
 
         # Unary operations
@@ -248,70 +275,16 @@ def _compute_degree_cached(expr_id: int, expr: Expression) -> Optional[int]:
 
 def _compute_degree_impl(expr: Expression) -> Optional[int]:
     """Core degree computation with early termination."""
-    from optyx.core.matrices import QuadraticForm
-    from optyx.core.vectors import (
-        DotProduct,
-        LinearCombination,
-        VectorSum,
-        VectorPowerSum,
-        VectorUnarySum,
-        ElementwisePower,
-        ElementwiseUnary,
-    )
-
     # Fast path: leaf nodes (most common)
     if isinstance(expr, Constant):
         return 0
     if isinstance(expr, Variable):
         return 1
 
-    # Vector expressions
-    if isinstance(expr, LinearCombination):
-        # Check if vector contains variables (degree 1) or expressions
-        if hasattr(expr.vector, "_variables"):
-            return 1
-        # Check expressions in vector (VectorExpression case)
-        if hasattr(expr.vector, "_expressions"):
-            max_deg = 0
-            for sub_expr in expr.vector._expressions:  # type: ignore[union-attr]
-                d = _compute_degree_impl(sub_expr)
-                if d is None:
-                    return None
-                max_deg = max(max_deg, d)
-            return max_deg
-        return 1  # Default for unknown vector types
-
-    if isinstance(expr, VectorSum):
-        if hasattr(expr.vector, "_variables"):
-            return 1
-        if hasattr(expr.vector, "_expressions"):
-            max_deg = 0
-            for sub_expr in expr.vector._expressions:  # type: ignore[union-attr]
-                d = _compute_degree_impl(sub_expr)
-                if d is None:
-                    return None
-                max_deg = max(max_deg, d)
-            return max_deg
-        return 1  # Default for unknown vector types
-    if isinstance(expr, DotProduct):
-        # x · y could be quadratic if both are variables
-        # For now, return 2 (quadratic) as worst case
-        return 2
-    if isinstance(expr, QuadraticForm):
-        # xᵀAx is always quadratic
-        return 2
-    if isinstance(expr, VectorPowerSum):
-        # sum(x ** k) has degree k
-        return int(expr.power)
-    if isinstance(expr, VectorUnarySum):
-        # sum(sin(x)), sum(exp(x)) etc. are non-polynomial
-        return None
-    if isinstance(expr, ElementwisePower):
-        # x ** k has degree k
-        return int(expr.power)
-    if isinstance(expr, ElementwiseUnary):
-        # sin(x), exp(x) etc. are non-polynomial
-        return None
+    # Vector / matrix reduction nodes - classified from their operands
+    handled, node_deg = _vector_node_degree(expr)
+    if handled:
+        return node_deg
 
     # Binary operations - early termination on None
     if isinstance(expr, BinaryOp):
